@@ -132,6 +132,13 @@ def gen_cases(ctx):
                         feeds.insert(pos, ("r", 0))
             cases.append(Case("B_%s_p%d_%d" % (ind, p, j), [new_op(0, ind, pr)] + feeds,
                               dump=(0,) if p <= 64 else (), meta={"ind": ind, "p": p, "fam": "B", "n": n, "style": style}))
+    # seed-independent long runs (4400 inputs, periods 3 and 5: neither divides 2^10): maintenance code that only executes every
+    # 2^10 / 2^12 updates still has to return the statistic of exactly the last n inputs
+    for ind in ("SMA", "WMA", "SD", "MAD", "BB", "MIN", "MAX"):
+        for p in (3, 5):
+            pr = (p, 0, 0, 2.0 if ind == "BB" else 0.0)
+            cases.append(Case("L_%s_p%d" % (ind, p), [new_op(0, ind, pr)] + long_feed("SMA", 4400, "plain" if p == 3 else "spike"),
+                              dump=(), meta={"ind": ind, "p": p, "fam": "D", "n": 4400, "style": "long"}))
     # K7: WMA adversary (known finding) and the same stream through SMA (must stay within tolerance)
     adv = adversary(1400 if not ctx.thorough else 20000, r)
     cases.append(Case("K7_WMA_adversary", [new_op(0, "WMA", (2, 0, 0, 0.0))] + [("n", 0, x) for x in adv], dump=(),
